@@ -3,7 +3,7 @@ from checks import pfcp_common as pc
 
 MANIFEST = dict(
     text="Kernel-checked for the PFCP layer: push appends iff the queue is below capacity (BUFFQ_LEN from T-gen), otherwise the NEWEST packet is dropped and nothing else changes; other PDRs' queues and all other session fields are untouched; a buffer item pushes iff BUFF and the packet is non-empty, a Downlink Data Report is sent iff NOCP, to the owning node with the peer's SEID; Close drops the queues; no per-session rule operation touches a queue; in every reachable state every queue holds at most BUFFQ_LEN packets. Release path (Gtp5g.UpdateFAR/applyAction/WritePacket, model/Release.v, after fix 6f99407): on BUFF->FORW every queued packet of every PDR the data plane relates to the FAR is emitted exactly once, in queue order, as the G-PDU of C14 with the FAR's UPDATED peer/port/TEID and the PDR's first non-zero QFI (the reference decoder reads back teid, qfi and payload), afterwards those queues are empty; BUFF->DROP empties them without emission; otherwise nothing leaves and no queue changes; nothing survives the session. Tie: differential run incl. bursts beyond the capacity + queue-content monitor; full-stack release scenarios (real PfcpServer + real Gtp5g over the simulated kernel, BUFFER multicasts through the real netlink listener, two fake gNB sockets) compared step by step with the model, plus a monitor on the gNB datagrams.",
-    note='Partial: release/encapsulation path (driver) not covered yet. ',
+    note='The release path runs over the simulated kernel (SimKernel lists RELATED_TO_PDR in ascending PDR id order; a queue outlives Remove PDR - modelled as is). A release-mode replay file is replayed through the full stack (python3 check.py C13 --replay f). ',
     technique="Coq lemmas on the emission / queue / reference-count functions + differential run + trace monitor",
     design='4/C13')
 
@@ -12,10 +12,10 @@ GEN = dict(weights=dict(dld=34, est=14, mod=10, dele=10, asr=6, srr=8, usa=2), b
 N_QUICK, N_THOROUGH = 80, 3000
 
 
-def release_phase(ctx, info, coverage):
+def release_phase(ctx, info, coverage, cases=None):
     """second half of C13: the release path through the real Gtp5g driver over the simulated kernel"""
     from checks import release_phase as rp
-    r = rp.run(ctx, info["harness"], 40 if ctx.tier == "quick" else 1500)
+    r = rp.run(ctx, info["harness"], 40 if ctx.tier == "quick" else 1500, cases=cases)
     if r.get("error"):
         ctx.violation({"property": "C13", "broken": r["error"]}, no_input=True)
         return
@@ -39,5 +39,18 @@ def release_phase(ctx, info, coverage):
 
 
 def run(ctx, replay=None):
+    if replay:
+        import json
+        r = json.load(open(replay))
+        if r.get("mode") == "release":
+            # a replay of the release path: that scenario alone, through the full stack
+            from lib import common
+            info = common.prepare(ctx)
+            coverage = {"obligations": len(info["obl"]["theorems"]), "discharged": len(info["obl"]["theorems"]) if info["obl"]["compiled"] else 0,
+                        "checker_cmd": "make -f Makefile.coq + coqc props/C13.v", "trusted_base": common.TRUSTED_BASE,
+                        "axioms": info["obl"]["axioms"], "theorems": info["obl"]["theorems"], "evaluations": 0, "distinct_nontrivial": 1,
+                        "rule": "replay of one release scenario"}
+            release_phase(ctx, info, coverage, cases=[r["case"]])
+            return ctx.finish(coverage, [pc.PFCP_NOTE])
     return pc.run_property(ctx, "C13", pc.mon_c13, GEN, N_QUICK, N_THOROUGH, replay=replay, rule=RULE,
                            assumptions=[pc.PFCP_NOTE], finding_sig=None, directed=pc.directed_c13, extra_phase=release_phase)
